@@ -110,12 +110,26 @@ def scale_value(rnd, taken_values, safe=False):
     return Fraction(rnd.randint(2, 10**6))
 
 
+def group3(digits):
+    """1234567 -> 1_234_567"""
+    out = []
+    while len(digits) > 3:
+        out.insert(0, digits[-3:])
+        digits = digits[:-3]
+    out.insert(0, digits)
+    return "_".join(out)
+
+
 def literal_forms(v):
     """All the ways the generator may write the positive rational v."""
     forms = []
     if v.denominator == 1:
         n = v.numerator
         forms += [str(n), "%d." % n, "%d.0" % n, "%d.000" % n]
+        # every integer literal form of the language
+        forms += [hex(n), oct(n).replace("0o", "0o"), bin(n), group3(str(n)), "%du64" % n if n < 2**64 else str(n)]
+        forms.append(group3(str(n)) + ".0")
+        forms.append("%d.0f64" % n)
         s = str(n)
         z = len(s) - len(s.rstrip("0"))
         if z >= 1:
@@ -132,6 +146,9 @@ def literal_forms(v):
         digits = str(x.numerator).rjust(k + 1, "0")
         plain = digits[:-k] + "." + digits[-k:]
         forms.append(plain)
+        ip, fp = plain.split(".")
+        forms.append(group3(ip) + "." + fp)   # digit separators
+        forms.append(plain + "f64")            # type suffix
         if k < 18:
             forms.append(plain + "0")
         forms.append("%de-%d" % (x.numerator, k))
@@ -143,7 +160,13 @@ def literal_forms(v):
 
 def literal_value(lit):
     """Exact value of a scale literal as the macro has to read it."""
-    return Fraction(lit.rstrip(".") if lit.endswith(".") else lit)
+    t = lit.replace("_", "")
+    for suffix in ("f64", "u64"):
+        if t.endswith(suffix):
+            t = t[:-len(suffix)]
+    if t[:2] in ("0x", "0o", "0b"):
+        return Fraction(int(t, 0))
+    return Fraction(t.rstrip(".") if t.endswith(".") else t)
 
 
 def random_units(rnd, n, with_ref, taken_idents, allow_prefix=True, safe=False):
